@@ -231,3 +231,18 @@ fn c07_mutex_handover_orders_critical_sections() {
     reach!("c07_mutex_handover");
 }
 }
+
+/// Insert a mutex locked by `owner` as the next object of `ex` (used by the condvar harness).
+pub(crate) fn insert_locked_mutex(ex: &mut crate::rt::Execution, owner: thread::Id) -> Mutex {
+    let st = State { seq_cst: kani::any(), lock: Some(owner), last_access: None, synchronize: any_sync() };
+    let r = crate::rt::execution::verif_kani::objects_mut(ex).insert(st);
+    Mutex { state: r }
+}
+pub(crate) fn owner_of(ex: &crate::rt::Execution, idx: usize) -> Option<usize> {
+    let r: object::Ref<State> = crate::rt::object::verif_kani::mk_ref(idx);
+    r.get(crate::rt::execution::verif_kani::objects(ex)).lock.map(|i| i.as_usize())
+}
+
+pub(crate) fn unlocked_mutex_state() -> State {
+    State { seq_cst: false, lock: None, last_access: None, synchronize: Synchronize::new() }
+}
